@@ -324,8 +324,6 @@ func (s *Session) Close() error {
 
 	close(s.shutdownCh)
 	s.dispatcher.post(func() {
-		s.shutdownLock.Lock()
-		defer s.shutdownLock.Unlock()
 		//firstly close eventConn
 		s.eventConn.close()
 
@@ -334,11 +332,16 @@ func (s *Session) Close() error {
 		s.streams = nil
 		s.streamLock.Unlock()
 
+		// shutdownLock must not be held while waiting for the streams' callbacks: a callback that still writes
+		// reaches exitErr (which takes shutdownLock) when the write fails on the closed connection.
 		for _, stream := range streams {
 			stream.Close()
 			stream.asyncGoroutineWg.Wait()
 		}
 
+		// GetMetrics reads the queue under shutdownLock, the mappings are released under it
+		s.shutdownLock.Lock()
+		defer s.shutdownLock.Unlock()
 		if s.bufferManager != nil {
 			addGlobalBufferManagerRefCount(s.bufferManager.path, -1)
 		}
